@@ -331,15 +331,16 @@ func c19BoolOf(e C19Entry) bool {
 // ---- probe workspace ----
 
 type c19Probe struct {
-	dir       string
-	h         *lspx.Harness
-	uri       string
-	fmtURI    string
-	incURI    string
-	sizeURI   string
-	version   int
-	nAccounts int
-	bigSize   int
+	dir                     string
+	h                       *lspx.Harness
+	uri                     string
+	fmtURI                  string
+	incURI                  string
+	incOpenURI, sizeOpenURI string
+	sizeURI                 string
+	version                 int
+	nAccounts               int
+	bigSize                 int
 }
 
 func c19Accounts(n int) string {
@@ -381,6 +382,16 @@ func newC19Probe(init any) (*c19Probe, error) {
 		return nil, err
 	}
 	p.h = h
+	// two documents that stay open, unchanged, across all configuration changes: a new
+	// limit must reach requests on them too ("take effect on subsequent behaviour")
+	p.incOpenURI = "file://" + filepath.Join(dir, "chain-open.journal")
+	p.sizeOpenURI = "file://" + filepath.Join(dir, "size-open.journal")
+	if _, err := h.OpenAndWait(p.incOpenURI, "include l1.journal\naccount \n"); err != nil {
+		return nil, err
+	}
+	if _, err := h.OpenAndWait(p.sizeOpenURI, "include big.journal\naccount \n"); err != nil {
+		return nil, err
+	}
 	return p, nil
 }
 
@@ -423,6 +434,28 @@ func (p *c19Probe) measure(want c19Settings, stage string) []ev.Discrepancy {
 	}
 	perr := lspx.Guard(func() {
 		ctx := context.Background()
+		// two questions on documents that were open before the change and were not touched; asked
+		// first (nothing else has happened since the change) and again at the end (so that the
+		// tree the server may cache is the one resolved under these settings, with nothing after it)
+		openDocs := func(when string) {
+			for _, q := range []struct {
+				uri, label, what string
+				exp              bool
+			}{
+				{p.incOpenURI, "deep:only", "maxIncludeDepth", want.MaxDepth >= 4},
+				{p.sizeOpenURI, "big:only", "maxFileSizeBytes", want.MaxSize >= int64(p.bigSize) && want.MaxDepth >= 2},
+			} {
+				res, err := p.h.S.Completion(ctx, &protocol.CompletionParams{TextDocumentPositionParams: tdpp(q.uri, refclient.Pos{Line: 1, Char: 8})})
+				if err != nil || res == nil {
+					add("c19.probe", "completion on an open document: %v", err)
+					return
+				}
+				if got := hasLabel(res.Items, q.label); got != q.exp && want.MaxResults >= 5 {
+					add("c19.effect."+q.what+".open-document", "on a document that stayed open and unchanged across the configuration change (%s), %q offered=%v, expected %v (maxIncludeDepth=%d, maxFileSizeBytes=%d)", when, q.label, got, q.exp, want.MaxDepth, want.MaxSize)
+				}
+			}
+		}
+		openDocs("first request after the change")
 		// completion limit / counts: 60 declared accounts, cursor on an empty posting account
 		doc := c19Accounts(p.nAccounts) + "\n2024-01-01 x\n    acc:n00  1 EUR\n    \n"
 		items, err := p.labels(p.uri, doc, p.nAccounts+3, 4)
@@ -543,6 +576,7 @@ func (p *c19Probe) measure(want c19Settings, stage string) []ev.Discrepancy {
 		if got := len(ic.Items) > 0; got != want.FeatInline {
 			add("c19.effect.inlineCompletion", "inline completion answers=%v, expected features.inlineCompletion=%v", got, want.FeatInline)
 		}
+		openDocs("last request before the next change")
 	})
 	if perr != nil {
 		add("c19.total.panic", "%v", perr)
